@@ -110,6 +110,13 @@ def make_search_hook(chk, prop):
             variants.append([["setmode", w, bool(m >> w & 1)] for w in range(4)] + ops)
         for i in range(len(ops)):
             variants.append(ops[:i] + ops[i + 1:])
+        # continuations: let pending notifications arrive / end the track / stop after the
+        # disagreeing prefix
+        tails = [[["deliver"]] * k for k in (1, 2, 4, 8)]
+        tails += [[["atf"]] + [["deliver"]] * 6, [["stop"]] + [["deliver"]] * 4, [["next"]] + [["deliver"]] * 6,
+                  [["previous"]] + [["deliver"]] * 6, [["pause"], ["resume"]] + [["deliver"]] * 6,
+                  [["save"], ["load", [True] * 5]] + [["deliver"]] * 8]
+        variants = [ops + t for t in tails] + variants
         findings = vlib.load_findings(prop)
         for v in variants[:400]:
             c = dict(case)
